@@ -98,8 +98,8 @@ ZonedCells ==
      \cup {[op |-> o, args |-> [zone |-> z, recv |-> r, other |-> r2, st |-> st]] : o \in {"ZonedX.until", "ZonedX.since"}, z \in XZones, r \in XRecv, r2 \in XRecv, st \in XSts}
      \cup {[op |-> o, args |-> [zone |-> z, recv |-> r]] : o \in {"ZonedX.startOfDay", "ZonedX.hoursInDay", "ZonedX.fields", "ZonedX.toString"}, z \in XZones, r \in XRecv}
      \cup {[op |-> "ZonedX.withPlainTime", args |-> [zone |-> z, recv |-> r, time |-> t]] : z \in XZones, r \in XRecv, t \in Times}
-     \* a provider reporting an impossible offset (10^10 s, +-2^63 s): still no panic, assertion or hang
-     \cup {[op |-> "ZonedX.absurd", args |-> [off |-> o, recv |-> r]] : o \in {Bg(1, <<0, 0, 100>>), Bg(-1, <<0, 0, 100>>), Bg(1, <<5807, 4775, 6854, 3720, 922>>), Bg(-1, <<5808, 4775, 6854, 3720, 922>>), Bg(1, <<2037, 3372, 92>>)}, r \in XRecv}
+     \* a provider reporting an impossible offset (+-10^10 s, +-9 223 372 037 s - the first whose nanoseconds leave 64 bits -, 10^12 s): still no panic, assertion or hang
+     \cup {[op |-> "ZonedX.absurd", args |-> [off |-> o, recv |-> r]] : o \in {Bg(1, <<0, 0, 100>>), Bg(-1, <<0, 0, 100>>), Bg(1, <<2037, 3372, 92>>), Bg(-1, <<2037, 3372, 92>>), Bg(1, <<0, 0, 0, 1>>)}, r \in XRecv}
      \cup {[op |-> "ZonedX.fromLocal", args |-> [zone |-> z, dt |-> x, dis |-> ds]] : z \in XZones, x \in DTs, ds \in {"compatible", "earlier", "later", "reject"}}
   ELSE {}
 
